@@ -38,6 +38,31 @@ RULE = ("Well-shaped triangulated surfaces (min angle >= 8 deg): closed bases (t
         "prelude of calls the documentation says are refused (they must raise and leave the switches alone). Sub-check "
         "'custom_connection': caller-built connections (Flat* on an embedded planar mesh turned by an arbitrary angle; "
         "SurfaceConnectionFaces with its default border-only features under a field that uses creases). "
+        "Round 6: every field / sequence / custom_connection case also draws HOW THE CALL IS SPELLED - options by keyword, order and features "
+        "by position (examples/framefield2D.py), every option by position in signature order, with the three trailing optional "
+        "objects given as None, every option whose value is the documented default left out, mesh and elements by keyword; flags as "
+        "bool / numpy.bool_ / 0-1; the attach weight as float / numpy.float64 / Python int (unit scale: rounded to a whole number) - and "
+        "HOW THE WORKER IS DRIVEN - initialize() + run(), run() alone (README), SurfaceFrameField(...)() (Worker.__call__, must return the "
+        "worker), run() twice before anything is read, initialize() + optimize() (+ run()) - and run() again between read-outs. With run() "
+        "alone the constraints / operators are read from a twin (same options by keyword, initialize() on a fresh mesh) and run() must "
+        "constrain the same elements; a drawn half of the non-plain cases is also compared with that twin after the run (constrained set, "
+        "constraints, field on the constrained-solve path under the same conditioning bounds as 'sequence'; not with cad_correction, whose "
+        "connection comes out of an iterative QP solve); in 'sequence' the fresh-mesh reference is always spelled the plain way. run() on a "
+        "finished field must leave |var| as it is and, on the constrained-solve path, var within 1e-8. Read-outs are spelled too: "
+        "flag_singularities() / (singul_attr_name='singuls') / ('singuls') / another attribute name by position or keyword (indices read "
+        "from that attribute); export_as_mesh() / (repr_vector=False) / (False) / (0) / (numpy.bool_(False)) and, vertex fields, "
+        "repr_vector=True (one tip per vertex in the direction arg(var) of the vertex basis); vertex-field flag_singularities is a history "
+        "step that must leave the documented +-1 / 0 attribute on faces; ff.element and ff[i] (i = 0, last, numpy ints) must be the element "
+        "kind and var[i]. Prior use of the mesh is drawn in both orders of the attribute calls, plus objects built by the caller beforehand "
+        "(a FeatureEdgeDetector with creases and corner_order 6, face / vertex connections, face_near_border, cotan_weights, border queries). "
+        "Surfaces include the smallest ones (one triangle, two triangles flat / folded, 3-fan, 3-strip, tetrahedron); labels show how often "
+        "element 0 / the last element / edge 0 is constrained or free and whether vertex 0 is an interior singularity. The laplacian sub-check "
+        "also spells the operator calls (arguments by position, cotan as numpy.bool_ / 0-1, order as numpy.int64, order / cotan left at "
+        "their documented defaults, connection=None given explicitly with an order) and the connection constructors (feat=None by position "
+        "/ keyword, vnormals=None / angles=None, the documented default border-only detector given by the caller): same operator / same "
+        "bases and transports to 1e-12. Sub-check 'operators_big': a one-quad-wide planar strip with more than 2**16 vertices and more than "
+        "2**16 faces, scalar Laplacians with uniform weights: shape, symmetry, constants in the kernel, off-diagonal pattern = mesh edges / "
+        "pairs of faces across an interior edge, all negative. "
         "non-trivial = the mesh has >=1 free element and (order != 4 or features on) [large: > 2500 free elements; laplacian sub-check: an interior edge and "
         "order != 4; sequence: >=2 distinct (elements, order) steps and an interior edge]; distinct = distinct realised cases.")
 ASSUMPTIONS = [
@@ -69,6 +94,20 @@ ASSUMPTIONS = [
     "sort_neighborhoods=False for vertex fields (the vertex connection walks sorted rings), anisotropic scaling and float32 "
     "coordinates (change the geometry / the accuracy regime of the tangency and export tolerances)",
     "'planar' in the laplacian sub-check means embedded in the plane z=0 with one orientation (edge flips can fold a sheet over)",
+    "call spellings: order and n_smooth stay Python ints (the constructor documents and enforces isinstance(int), numpy integers are "
+    "refused by the unchanged library); flags may be bool / numpy.bool_ / 0-1 and the attach weight any positive real number type; "
+    "positional passing follows the signature SurfaceFrameField(mesh, elements, order, features, verbose, n_smooth, "
+    "smooth_attach_weight, use_cotan, cad_correction, smooth_normals, singularity_indices, custom_connection, custom_features)",
+    "the same options spelled differently / the worker driven differently define the same field: asserted against the twin only on the "
+    "constrained-solve path (a closed surface without constraint goes through a randomly started eigen-solve), with cond <= 1e6, "
+    "without cad_correction; optimize() called directly, or run() after it, recomputes the same solve (constrained path) or another "
+    "valid eigenvector (then only the invariants are asserted and the flags of one history are compared from that point on)",
+    "export_as_mesh(repr_vector=True): only the direction of the exported vector is asserted (the docstring says 'representation "
+    "vector', no length), its length must be positive",
+    "the frame-field solvers themselves are not run beyond ~3400 elements (a face field on 32768 faces takes minutes): the regime "
+    "beyond 2**16 elements is covered for the scalar operators with uniform weights only",
+    "not drawn: double initialize() (the vertex field accumulates its constraints into var), custom_features, singularity_indices, "
+    "numpy integers for order / n_smooth, one-shot iterables (no argument of these functions is a collection)",
 ]
 
 # With a caller-supplied connection whose face bases are not on the constrained edge, /repo's face field hard-codes the 4th
@@ -202,8 +241,42 @@ def regular_closed(draw):
     return {"V": V, "F": [list(map(int, f)) for f in F], "tags": tags + G.tags_of(V, F)}
 
 
+@st.composite
+def tiny(draw):
+    """the smallest surfaces: one triangle, two triangles (flat or folded along the shared edge), the 3-fan around one interior
+    vertex, the tetrahedron; optionally relabelled so that any vertex / face can be number 0 or the last one"""
+    kind = draw(st.sampled_from(["one", "two", "two-folded", "fan3", "tet", "strip3"]))
+    h = draw(st.sampled_from([0.7, 1.0, 1.9]))
+    if kind == "one":
+        V, F = [[0.0, 0.0, 0.0], [1.0, 0.0, 0.0], [0.3, h, 0.0]], [[0, 1, 2]]
+    elif kind == "two":
+        V, F = [[0.0, 0.0, 0.0], [1.0, 0.0, 0.0], [0.4, h, 0.0], [0.5, -h, 0.0]], [[0, 1, 2], [1, 0, 3]]
+    elif kind == "two-folded":
+        V, F = [[0.0, 0.0, 0.0], [1.0, 0.0, 0.0], [0.4, h, 0.0], [0.5, 0.1 * h, h]], [[0, 1, 2], [1, 0, 3]]
+    elif kind == "fan3":
+        V, F = G.fan(3, True)
+        V = [[v[0], v[1], 0.3 * h if i == 0 else 0.0] for i, v in enumerate(V)]
+    elif kind == "strip3":
+        V, F = G.strip(3)
+    else:
+        V, F = G.tetrahedron()
+    tags = ["base=tiny-" + kind]
+    if draw(st.booleans()):
+        V = G.rigid(V, draw(st.integers(0, 1000)))
+        tags.append("rigid")
+    if draw(st.booleans()):
+        V, F, _ = G.relabel(V, F, draw(st.integers(0, 10000)))
+        tags.append("relabelled")
+    V = [[float(x) for x in v] for v in V]
+    F = [list(map(int, f)) for f in F]
+    if not _angles_ok(V, F) or SurfRef(len(V), F).validate() is not None:
+        V, F = [[0.0, 0.0, 0.0], [1.0, 0.0, 0.0], [0.3, 1.0, 0.0]], [[0, 1, 2]]
+        tags = ["base=tiny-one"]
+    return {"V": V, "F": F, "tags": tags + G.tags_of(V, F)}
+
+
 def any_surface():
-    return st.one_of(regular_closed(), G.well_shaped_trisurf(max_faces=60, bordered=False), G.well_shaped_trisurf(max_faces=60, bordered=False, closed_bases=("icosa", "torus", "antiprism")),
+    return st.one_of(tiny(), regular_closed(), G.well_shaped_trisurf(max_faces=60, bordered=False), G.well_shaped_trisurf(max_faces=60, bordered=False, closed_bases=("icosa", "torus", "antiprism")),
                      G.well_shaped_trisurf(max_faces=60, bordered=True), panels(), panels(min_size=3), panels(roof=True, min_size=3),
                      panels(roof=True, min_size=2), panels(roof=False, min_size=3), good_delaunay())
 
@@ -226,12 +299,36 @@ def field_case(draw):
         c["cad"] = draw(st.integers(0, 3)) == 0
     c.update(draw(extras()))
     c["ops"] = draw(OPS)
+    c.update(draw(spelling()))
+    c["pre_objs"] = draw(st.integers(0, 3)) == 0
     return c
 
 
-# read-out histories: the usual one, export first, export twice, flag - export - flag
+# read-out histories: the usual one, export first, export twice, flag - export - flag; "run" = run() called again on the same
+# field object (before any result is read / after results were read)
 OPS = st.sampled_from([["flag"], ["flag"], ["export", "flag"], ["export", "export", "flag"], ["flag", "export", "flag"],
-                       ["flag", "export"], ["export", "flag", "export", "flag"]])
+                       ["flag", "export"], ["export", "flag", "export", "flag"], ["run", "flag"], ["flag", "run", "flag"],
+                       ["export", "run", "export", "flag"], ["flag", "export", "run", "flag", "export"]])
+
+# how the caller spells the call (round 6): keywords (as before) / order and features by position as examples/framefield2D.py does /
+# every option by position in the order of the signature / ... with the three trailing optional objects given as None / every
+# argument whose value is the documented default left out / the optional objects passed explicitly as None / mesh and elements by
+# keyword too
+SPELLS = ["kw", "kw", "pos2", "pos", "pos_all", "omit", "explicit_none", "kw_all"]
+# how the worker object is driven: initialize() + run() (as before) / run() alone (README, examples) / ff = SurfaceFrameField(...)()
+# (Worker.__call__, the form the repository's tests use) / run() twice / initialize() + optimize() / ... then run()
+STYLES = ["init+run", "init+run", "run", "call", "init+run+run", "run+run", "init+optimize", "init+optimize+run"]
+RUN_ONLY = ("run", "call", "run+run")
+DOC_DEFAULTS = {"order": 4, "features": True, "verbose": False, "n_smooth": 3, "use_cotan": True, "cad_correction": True,
+                "smooth_normals": True}
+
+
+@st.composite
+def spelling(draw):
+    """spelling of the constructor call, type of the flags / the attach weight, call history of the worker, spelling of the read-outs"""
+    return {"spell": draw(st.sampled_from(SPELLS)), "flagform": draw(st.sampled_from([None, None, "npbool", "int"])),
+            "numform": draw(st.sampled_from([None, None, "np", "int"])), "style": draw(st.sampled_from(STYLES)),
+            "twin": draw(st.booleans()), "rsp": draw(st.integers(0, 3))}
 
 
 SCALES = [1.0, 1.0, 1.0, 1e-3, 1e3, 1e-6, 1e6]
@@ -252,7 +349,8 @@ def step(draw):
     elements = draw(st.sampled_from(["faces", "faces", "vertices"]))
     return {"elements": elements, "order": draw(ORDERS), "features": draw(st.booleans()),
             "n_smooth": draw(st.sampled_from([0, 0, 1, 2])), "alpha": draw(st.sampled_from(ALPHAS)), "cotan": draw(st.booleans()),
-            "smooth_normals": draw(st.booleans()), "cad": False, "verbose": draw(st.integers(0, 5)) == 0, "ops": draw(OPS)}
+            "smooth_normals": draw(st.booleans()), "cad": False, "verbose": draw(st.integers(0, 5)) == 0, "ops": draw(OPS),
+            **draw(spelling())}
 
 
 @st.composite
@@ -264,7 +362,7 @@ def sequence_case(draw):
     ex = draw(extras())
     return {"V": s["V"], "F": s["F"], "tags": s["tags"], "steps": steps, "scale": ex["scale"], "int_coords": ex["int_coords"],
             "dup_warning": ex["dup_warning"], "pre_attrs": ex["pre_attrs"], "offset_k": ex["offset_k"], "face_dtype": ex["face_dtype"],
-            "repeat_first": draw(st.booleans())}
+            "repeat_first": draw(st.booleans()), "pre_objs": draw(st.integers(0, 3)) == 0}
 
 
 @st.composite
@@ -295,31 +393,74 @@ def laplacian_case(draw):
     else:
         s = draw(any_surface())
     return {"V": s["V"], "F": s["F"], "tags": s["tags"], "planar": bool(planar), "order": draw(ORDERS),
-            "cotan": draw(st.booleans()), "flip": draw(st.booleans())}
+            "cotan": draw(st.booleans()), "flip": draw(st.booleans()), "lsp": draw(st.integers(0, 4))}
 
 
 # ----------------------------------------------------------------------------------------------- helpers
 
+def spelled_flag(x, form):
+    """a flag as the caller may write it: bool / numpy.bool_ / 0-1"""
+    if form == "npbool":
+        return np.bool_(bool(x))
+    if form == "int":
+        return int(bool(x))
+    return bool(x)
+
+
+def canonical(case):
+    """the same computation spelled the plain way (keywords, Python bools and floats, initialize() then run())"""
+    return dict(case, spell="kw", flagform=None, numform=None, style="init+run", twin=False, alpha_exact=eff_alpha(case))
+
+
 def make_ff(case, mesh):
     from mouette.processing.framefield.framefield import SurfaceFrameField
-    kw = {}
+    conn = None
     if case.get("custom"):
         # documented option custom_connection: a connection object built by the caller
         from mouette.processing import connection as C
         if case["custom"] == "flat":
-            kw["custom_connection"] = (C.FlatConnectionVertices if case["elements"] == "vertices" else C.FlatConnectionFaces)(mesh)
+            conn = (C.FlatConnectionVertices if case["elements"] == "vertices" else C.FlatConnectionFaces)(mesh)
         else:
-            kw["custom_connection"] = (C.SurfaceConnectionVertices if case["elements"] == "vertices" else C.SurfaceConnectionFaces)(mesh)
-    return SurfaceFrameField(mesh, case["elements"], order=int(case["order"]), features=bool(case["features"]),
-                             verbose=bool(case.get("verbose", False)), **kw,
-                             n_smooth=int(case["n_smooth"]), smooth_attach_weight=eff_alpha(case),
-                             use_cotan=bool(case["cotan"]), cad_correction=bool(case["cad"]),
-                             smooth_normals=bool(case["smooth_normals"]))
+            conn = (C.SurfaceConnectionVertices if case["elements"] == "vertices" else C.SurfaceConnectionFaces)(mesh)
+    ff_ = case.get("flagform")
+    alpha = eff_alpha(case)
+    if case.get("numform") == "np":
+        alpha = np.float64(alpha)
+    elif case.get("numform") == "int" and float(alpha).is_integer() and 0 < alpha < 2 ** 53:
+        alpha = int(alpha)                 # (unit scale: eff_alpha made it a whole number)
+    vals = [("order", int(case["order"])), ("features", spelled_flag(case["features"], ff_)),
+            ("verbose", spelled_flag(case.get("verbose", False), ff_)), ("n_smooth", int(case["n_smooth"])),
+            ("smooth_attach_weight", alpha), ("use_cotan", spelled_flag(case["cotan"], ff_)),
+            ("cad_correction", spelled_flag(case["cad"], ff_)), ("smooth_normals", spelled_flag(case["smooth_normals"], ff_))]
+    el = case["elements"]
+    spell = case.get("spell") or "kw"
+    ckw = {"custom_connection": conn} if conn is not None else {}
+    if spell == "pos2":
+        return SurfaceFrameField(mesh, el, vals[0][1], vals[1][1], **dict(vals[2:]), **ckw)
+    if spell == "pos":
+        return SurfaceFrameField(mesh, el, *[v for _, v in vals], **ckw)
+    if spell == "pos_all":
+        return SurfaceFrameField(mesh, el, *[v for _, v in vals], None, conn, None)
+    if spell == "omit":
+        kw = {k: v for k, v in vals if k != "smooth_attach_weight" and not (type(DOC_DEFAULTS[k])(v) == DOC_DEFAULTS[k])}
+        if int(case["n_smooth"]) > 0:
+            kw["smooth_attach_weight"] = alpha        # (None, the default, would estimate it with ARPACK)
+        return SurfaceFrameField(mesh, el, **kw, **ckw)
+    if spell == "explicit_none":
+        return SurfaceFrameField(mesh, el, **dict(vals), singularity_indices=None, custom_connection=conn, custom_features=None)
+    if spell == "kw_all":
+        return SurfaceFrameField(mesh=mesh, elements=el, **dict(vals), **ckw)
+    return SurfaceFrameField(mesh, el, **dict(vals), **ckw)
 
 
 def eff_alpha(case):
     """the attach weight multiplies an area matrix: it carries 1/length^2, so the drawn value is given for the unit-scale mesh"""
-    return float(case["alpha"]) / float(case.get("scale", 1.0)) ** 2
+    if case.get("alpha_exact") is not None:
+        return float(case["alpha_exact"])          # (twin of a case whose weight was rounded: the same value)
+    a = float(case["alpha"]) / float(case.get("scale", 1.0)) ** 2
+    if case.get("numform") == "int" and float(case.get("scale", 1.0)) == 1.0:
+        a = float(max(1, round(a)))          # a whole number, so that the caller can hand it over as a Python int
+    return a
 
 
 def quiet(f):
@@ -359,15 +500,36 @@ def apply_config(case, ctx):
 
 def prior_use(case, mesh, ctx):
     """the mesh may have been used before: public attribute functions called on it with their default (persistent) settings"""
-    if not case.get("pre_attrs"):
-        return True
     import mouette as M
-    ctx.label("prior-attribute-calls")
     A = M.attributes
-    for f in (A.angle_defects, A.corner_angles, A.cotangent, A.vertex_normals, A.face_normals, A.face_area, A.edge_length):
-        ok, _ = ctx.call("prior:" + f.__name__, f, mesh)
-        if not ok:
-            return False
+    if case.get("pre_attrs"):
+        ctx.label("prior-attribute-calls")
+        fs = (A.angle_defects, A.corner_angles, A.cotangent, A.vertex_normals, A.face_normals, A.face_area, A.edge_length)
+        if case.get("pre_objs"):
+            fs = fs[::-1]          # the other order: cotangents computed from the points first, the angles cached afterwards
+        for f in fs:
+            ok, _ = ctx.call("prior:" + f.__name__, f, mesh)
+            if not ok:
+                return False
+    if case.get("pre_objs"):
+        # objects a caller may have built on the mesh beforehand (round 6): a feature detector with other settings (leaves the
+        # 'feature' / 'corners' attributes), connections (leave 'normals' / 'angles'), the face set near the border, border queries
+        from mouette.processing import connection as C
+        from mouette.processing.features import FeatureEdgeDetector
+        ctx.label("prior-objects")
+        ok, _ = ctx.call("prior:FeatureEdgeDetector", quiet(lambda: FeatureEdgeDetector(only_border=False, corner_order=6, verbose=False)(mesh)))
+        if not ok: return False
+        ok, _ = ctx.call("prior:SurfaceConnectionFaces", C.SurfaceConnectionFaces, mesh)
+        if not ok: return False
+        if case.get("elements") == "vertices":         # (a vertex connection needs the tangent planes the caller checked)
+            ok, _ = ctx.call("prior:SurfaceConnectionVertices", C.SurfaceConnectionVertices, mesh)
+            if not ok: return False
+        for f, a in ((A.face_near_border, (mesh, 2)), (A.mean_edge_length, (mesh,)), (A.cotan_weights, (mesh,))):
+            ok, _ = ctx.call("prior:" + f.__name__, f, *a)
+            if not ok: return False
+        ok, _ = ctx.call("prior:border-queries", lambda: (list(mesh.boundary_edges), list(mesh.boundary_vertices), list(mesh.interior_edges),
+                                                          list(mesh.interior_vertices)))
+        if not ok: return False
     return True
 
 
@@ -553,14 +715,45 @@ def snapshot_connection(ff, n_el):
     return {"X": X, "Y": Y, "T": T}
 
 
-def read_singularities(case, ff, mesh, ref, order, ctx, hist=""):
+def spelled_flag_call(ff, spelled):
+    """flag_singularities as the caller may write it: () / (singul_attr_name="singuls") / ("singuls") / another attribute name,
+    by position or by keyword. Returns (callable, attribute name)."""
+    rsp, io = spelled
+    if rsp == 1:
+        return (lambda: ff.flag_singularities(singul_attr_name="singuls")), "singuls"
+    if rsp == 2:
+        return (lambda: ff.flag_singularities("singuls")), "singuls"
+    if rsp == 3:
+        name = ("cones", "s", "singuls2")[io % 3]
+        if io % 2:
+            return (lambda: ff.flag_singularities(name)), name
+        return (lambda: ff.flag_singularities(singul_attr_name=name)), name
+    return ff.flag_singularities, "singuls"
+
+
+def flag_vertex_field(ff, mesh, nF, ctx, hist, spelled):
+    f_, name = spelled_flag_call(ff, spelled)
+    ok, _ = ctx.call("flag_singularities:vertices", quiet(f_))
+    if not ok: return False
+    if not ctx.check(mesh.faces.has_attribute(name), "no-singuls-attribute", f"{hist}flag_singularities() of a vertex field created no {name!r} attribute on faces"):
+        return False
+    at = mesh.faces.get_attribute(name)
+    vals = [at[T] for T in range(nF)]
+    return ctx.check(all(float(x) in (-1.0, 0.0, 1.0) for x in vals), "vertex-field-singularity-value",
+                     f"{hist}vertex field: {name!r} holds {sorted(set(float(x) for x in vals))[:6]}, documented values are +-1 and 0")
+
+
+def read_singularities(case, ff, mesh, ref, order, ctx, hist="", spelled=(0, 0)):
     """flag_singularities() of a face field + the quantum / index-sum oracles. Returns the index array or None."""
     nV = len(case["V"])
-    ok, _ = ctx.call("flag_singularities", quiet(ff.flag_singularities))
+    f_, name = spelled_flag_call(ff, spelled)
+    if name != "singuls":
+        ctx.label("flag:custom-attribute-name")
+    ok, _ = ctx.call("flag_singularities", quiet(f_))
     if not ok: return None
-    if not ctx.check(mesh.vertices.has_attribute("singuls"), "no-singuls-attribute", "flag_singularities() created no 'singuls' attribute"):
+    if not ctx.check(mesh.vertices.has_attribute(name), "no-singuls-attribute", f"flag_singularities() created no {name!r} attribute"):
         return None
-    sing = mesh.vertices.get_attribute("singuls")
+    sing = mesh.vertices.get_attribute(name)
     idxs = np.array([float(sing[v]) for v in range(nV)])
     bv = set(ref.border_vertices())
     q = 4.0 / order
@@ -575,6 +768,10 @@ def read_singularities(case, ff, mesh, ref, order, ctx, hist=""):
     n_unflagged = int(np.sum(idxs == 0))
     tol = n_unflagged * 1e-3 * 2 / math.pi + 1e-6
     ctx.label("singular-interior>0" if any(idxs[v] != 0 for v in range(nV) if v not in bv) else "singular-interior=0")
+    if nV and 0 not in bv and idxs[0] != 0:
+        ctx.label("vertex0:interior-singularity")
+    if nV and (nV - 1) not in bv and idxs[nV - 1] != 0:
+        ctx.label("last-vertex:interior-singularity")
     if not ctx.check(abs(float(np.sum(idxs)) - 4 * chi) <= tol, "index-sum",
                      f"{hist}indices sum to {float(np.sum(idxs))!r}, expected 4*chi = {4 * chi} (tolerance {tol:.2e}, {n_unflagged} "
                      f"unflagged vertices, order {order})"):
@@ -636,6 +833,46 @@ def check_export(case, poly, snap, var, V, medges, order, n_el, elements, ctx, h
             if not ctx.check(gap >= math.sin(math.pi / order), "export-branches-coincide",
                              f"{hist}two of the {order} exported branches of an element coincide (smallest gap {gap:.3e})"):
                 return False
+    return True
+
+
+def check_export_vector(case, poly, snap, var, V, medges, n_el, ctx, hist=""):
+    """vertex field, export_as_mesh(repr_vector=True): "representation vector only" - per vertex the point and one tip, in the
+    direction arg(var) of the vertex's tangent basis (the representation vector itself, not one of the branches)"""
+    A3 = np.array(V, dtype=float)
+    L = float(np.mean([np.linalg.norm(A3[b] - A3[a]) for (a, b) in medges])) / 3
+    try:
+        P = np.array([[float(x) for x in v] for v in poly.vertices], dtype=float).reshape(-1, 3)
+        E = [tuple(int(x) for x in e) for e in poly.edges]
+    except Exception as e:
+        return ctx.check(False, "export-unreadable", f"{hist}export_as_mesh(repr_vector=True) returned {type(poly).__name__}: {type(e).__name__}: {e}")
+    if not ctx.check(P.shape == (2 * n_el, 3) and len(E) == n_el, "export-size",
+                     f"{hist}repr_vector=True: exported polyline has {P.shape[0]} vertices / {len(E)} edges, expected {2 * n_el} / {n_el}"):
+        return False
+    if not ctx.check(sorted(tuple(sorted(e)) for e in E) == [(2 * i, 2 * i + 1) for i in range(n_el)], "export-edges",
+                     f"{hist}repr_vector=True: exported edges are not point -> tip for every vertex"):
+        return False
+    big = float(np.max(np.abs(A3)))
+    D = P.reshape(n_el, 2, 3)
+    dc = np.linalg.norm(D[:, 0, :] - A3, axis=1)
+    i = int(np.argmax(dc)) if n_el else 0
+    if not ctx.check(n_el == 0 or float(dc[i]) <= 1e-9 * max(L, big), "export-centre",
+                     f"{hist}repr_vector=True: vertex {i}: exported point {D[i, 0].tolist() if n_el else None} is not the vertex"):
+        return False
+    tips = D[:, 1, :] - D[:, 0, :]
+    m = np.abs(var)
+    live = m > 1e-10
+    if np.any(live):
+        z = (np.einsum("ij,ij->i", tips, snap["X"]) + 1j * np.einsum("ij,ij->i", tips, snap["Y"]))[live]
+        ln = np.abs(z)
+        if not ctx.check(float(np.min(ln)) >= 1e-3 * L, "export-branch-length", f"{hist}repr_vector=True: a representation vector of length {float(np.min(ln))!r}"):
+            return False
+        dz = np.abs(z / ln - var[live] / m[live])
+        i = int(np.argmax(dz))
+        if not ctx.check(float(dz[i]) <= 1e-6 + 1e-12 * big / L, "export-vector-direction",
+                         f"{hist}repr_vector=True: vertex {int(np.where(live)[0][i])}: exported direction {z[i] / ln[i]} in the vertex basis, "
+                         f"but var / |var| = {var[live][i] / m[live][i]}"):
+            return False
     return True
 
 
@@ -746,16 +983,38 @@ def check_field(case, mesh, ref, ctx, where="", rng_seed=None):
     bordered = len(ref.border_edges()) > 0
     out = {"sing": None}
 
+    # call spelling / call history of the worker object (round 6)
+    style = case.get("style") or "init+run"
+    if case["cad"] and style in RUN_ONLY:
+        style = "init+run"         # (the corrected connection comes out of an iterative QP solve: no twin to read the constraints from)
+    spell = case.get("spell") or "kw"
+    plain = spell == "kw" and not case.get("flagform") and not case.get("numform") and style == "init+run"
+    ctx.label("spell=" + spell, "style=" + style, "flags=" + str(case.get("flagform") or "bool"), "alpha-as=" + ("int" if case.get("numform") == "int" and eff_alpha(case).is_integer() else "np" if case.get("numform") == "np" else "float"))
     ok, ff = ctx.call("construct", make_ff, case, mesh)
     if not ok: return
-    ok, _ = ctx.call("initialize", quiet(ff.initialize))
-    if not ok: return
-    medges = lib_edges(mesh)
-    if not ctx.check(hasattr(ff.var, "shape") and tuple(np.shape(ff.var)) == (n_el,), "var-shape",
-                     f"after initialize() var has shape {np.shape(ff.var)}, expected ({n_el},)"):
+    # twin: the same field spelled the plain way on a fresh mesh (keywords, initialize() then run()). With run() alone it is where the
+    # harness reads the constraints and the operators from before the run; otherwise it is compared with at the end.
+    twin = None
+    if style in RUN_ONLY or (case.get("twin") and not plain and not case["cad"]):
+        mesh_t, _ = build_mesh(case)
+        ok, ff_t = ctx.call("construct", make_ff, canonical(case), mesh_t)
+        if not ok: return
+        ok, _ = ctx.call("initialize", quiet(ff_t.initialize))
+        if not ok: return
+        twin = {"ff": ff_t, "mesh": mesh_t}
+        ctx.label("twin")
+    if style in RUN_ONLY:
+        src, src_mesh = twin["ff"], twin["mesh"]
+    else:
+        ok, _ = ctx.call("initialize", quiet(ff.initialize))
+        if not ok: return
+        src, src_mesh = ff, mesh
+    medges = lib_edges(src_mesh)
+    if not ctx.check(hasattr(src.var, "shape") and tuple(np.shape(src.var)) == (n_el,), "var-shape",
+                     f"after initialize() var has shape {np.shape(src.var)}, expected ({n_el},)"):
         return
-    var0 = np.array(ff.var, dtype=complex).copy()
-    fe, fixed, free = partition(case, mesh, ff, ref, medges)
+    var0 = np.array(src.var, dtype=complex).copy()
+    fe, fixed, free = partition(case, src_mesh, src, ref, medges)
     common_labels(case, ctx, ref, len(free))
     ctx.label("cad=%s" % bool(case["cad"]))
     ctx.label("free=0" if not free else "free>0", "fixed=0" if not fixed else "fixed>0")
@@ -787,16 +1046,16 @@ def check_field(case, mesh, ref, ctx, where="", rng_seed=None):
             and not case.get("custom"):
         for (a, b) in sorted(border_e):
             for (u, v) in ((a, b), (b, a)):
-                q = var0[u] * cmath.exp(-1j * order * float(ff.conn.transport(u, v)))
+                q = var0[u] * cmath.exp(-1j * order * float(src.conn.transport(u, v)))
                 if not ctx.check(abs(q - 1) <= 1e-9, "border-vertex-not-aligned",
                                  f"border vertex {u}: constraint {var0[u]} measured against border edge {(u, v)} is {q}, expected 1 "
-                                 f"(order {order}, transport {float(ff.conn.transport(u, v))!r})"):
+                                 f"(order {order}, transport {float(src.conn.transport(u, v))!r})"):
                     return
 
     # operators as the library defines them (connection may have been corrected by initialize())
     L = A = None
     if free:
-        ok, ops = ctx.call("operators", library_operators, case, mesh, ff)
+        ok, ops = ctx.call("operators", library_operators, case, src_mesh, src)
         if not ok: return
         L, A = ops
         if not ctx.check(L.shape == (n_el, n_el), "laplacian-shape", f"connection Laplacian has shape {L.shape}, expected {(n_el, n_el)}"):
@@ -826,8 +1085,30 @@ def check_field(case, mesh, ref, ctx, where="", rng_seed=None):
             return "discarded"
     if rng_seed is not None:
         np.random.seed(int(rng_seed))
-    ok, _ = ctx.call("run", quiet(ff.run))
-    if not ok: return
+    if style == "call":
+        ok, back = ctx.call("run", quiet(ff))          # Worker.__call__: runs and returns the worker
+        if not ok: return
+        if not ctx.check(back is ff, "call-does-not-return-worker", f"SurfaceFrameField(...)() returned {type(back).__name__}, not the field object"):
+            return
+    elif style in ("init+optimize", "init+optimize+run"):
+        ok, _ = ctx.call("optimize", quiet(ff.optimize))
+        if not ok: return
+        if style == "init+optimize+run":
+            ok, _ = ctx.call("run", quiet(ff.run))
+            if not ok: return
+    else:
+        ok, _ = ctx.call("run", quiet(ff.run))
+        if not ok: return
+        if style in ("init+run+run", "run+run"):
+            ok, _ = ctx.call("run", quiet(ff.run))      # again, before any result is read
+            if not ok: return
+    if style in RUN_ONLY:
+        # run() alone must have built the same constrained set as initialize() does
+        fe2, fixed2, free2 = partition(case, mesh, ff, ref, lib_edges(mesh))
+        if not ctx.check(fe2 == fe and fixed2 == fixed, "call-style-changes-constraints",
+                         f"run() without initialize() constrains {elements} {fixed2[:8]}... ({len(fixed2)}), initialize() on a fresh mesh "
+                         f"{fixed[:8]}... ({len(fixed)})"):
+            return
     if not ctx.check(hasattr(ff.var, "shape") and tuple(np.shape(ff.var)) == (n_el,), "var-shape",
                      f"after run() var has shape {np.shape(ff.var)}, expected ({n_el},)"):
         return
@@ -927,25 +1208,107 @@ def check_field(case, mesh, ref, ctx, where="", rng_seed=None):
                           f"{kind}: {elements[:-1]} {np.array(free)[okm][k]}: var = {got[k]}, normalised solution of L_II x = -L_IB var_B "
                           f"is {exp_[k]} (|x| = {abs(x[okm][k]):.3e}, cond {cond:.2e}, order {order})")
 
-    # (3) read-out history: export_as_mesh / flag_singularities in the drawn order (default: flag once). Reading a field out
-    # must not change it: every flag gives quantised indices summing to 4*chi, all flags of one history agree, every export is
-    # the field's frames, and var / the connection come back untouched
+    # (5) round 6: the public accessors of the worker, and the twin spelled the plain way
+    if not ctx.check(getattr(ff, "element", None) == elements, "field-element-name", f"ff.element is {getattr(ff, 'element', None)!r}, expected {elements!r}"):
+        return
+    for i in (0, n_el - 1, np.int64(0), np.int32(n_el - 1)):
+        ok, zi = ctx.call("getitem", lambda i=i: ff[i])
+        if not ok: return
+        if not ctx.check(zi is not None and complex(zi) == complex(var[int(i)]), "field-item-access",
+                         f"ff[{i!r}] is {zi!r} but ff.var[{int(i)}] is {var[int(i)]!r}"):
+            return
+    # element 0 / the last element in each role (labels: how often each occurs)
+    fx = set(fixed)
+    ctx.label("first-element:" + ("constrained" if 0 in fx else "free"), "last-element:" + ("constrained" if n_el - 1 in fx else "free"),
+              "edge0:" + ("constrained" if 0 in set(fe) else "free"))
+    if twin is not None:
+        ff_t = twin["ff"]
+        _, fixed_t, _ = partition(case, twin["mesh"], ff_t, ref, lib_edges(twin["mesh"]))
+        if not ctx.check(fixed_t == fixed, "spelling-changes-constraints",
+                         f"{spell} / {style} / flags as {case.get('flagform') or 'bool'}: constrained {elements} {fixed[:8]}... ({len(fixed)}), "
+                         f"but {fixed_t[:8]}... ({len(fixed_t)}) with every option given by keyword on a fresh mesh"):
+            return
+        v0t = np.array(ff_t.var, dtype=complex)
+        if fixed:
+            d = np.abs(v0t[fixed] - var0[fixed])
+            k = int(np.argmax(d))
+            if not ctx.check(float(d[k]) <= 1e-9, "spelling-changes-constraints",
+                             f"{spell} / {style}: constraint of {elements[:-1]} {fixed[k]} is {var0[fixed[k]]}, but {v0t[fixed[k]]} with every option "
+                             f"given by keyword on a fresh mesh"):
+                return
+        if rng_seed is not None:
+            np.random.seed(int(rng_seed))
+        ok, _ = ctx.call("run", quiet(ff_t.run))
+        if not ok: return
+        vt = np.array(ff_t.var, dtype=complex)
+        if fixed and vt.shape == var.shape and (cond is None or cond <= COND_MAX):
+            d = np.abs(vt - var)
+            k = int(np.argmax(d))
+            ctx.label("twin-compared")
+            if not ctx.check(float(d[k]) <= TOL_SOLVE, "spelling-changes-field",
+                             f"{spell} / {style} / flags as {case.get('flagform') or 'bool'} / attach weight as {case.get('numform') or 'float'}: "
+                             f"{elements[:-1]} {k}: var = {var[k]}, but {vt[k]} with every option given by keyword and initialize() + run() on a "
+                             f"fresh mesh (order {order}, n_smooth {case['n_smooth']}, cond {cond!r})"):
+                return
+
+    # (3) read-out history: export_as_mesh / flag_singularities / run() again in the drawn order (default: flag once). Reading a
+    # field out must not change it: every flag gives quantised indices summing to 4*chi, all flags of one history agree, every
+    # export is the field's frames, run() on a finished field leaves it as it is, and var / the connection come back untouched
     ops = list(case.get("ops") or ["flag"])
     ctx.label("ops=" + "".join(o[0] for o in ops))
+    rsp = int(case.get("rsp") or 0)
+    ctx.label("readout-spelling=%d" % rsp)
     small = n_el <= 400
     snap = snapshot_connection(ff, n_el) if small else None
     first_sing = None
     for io, op in enumerate(ops):
         hist = f"after {ops[:io + 1]}: "
-        if op == "export":
+        if op == "run":
+            ok, _ = ctx.call("run-again", quiet(ff.run))
+            if not ok: return
+            v2 = np.array(ff.var, dtype=complex)
+            if not ctx.check(v2.shape == var.shape and bool(np.all(np.isfinite(np.abs(v2)))), "var-shape", f"{hist}var has shape {v2.shape} / non-finite entries"):
+                return
+            dm = np.abs(np.abs(v2) - mod)
+            if not ctx.check(dm.size == 0 or float(np.max(dm)) <= TOL_UNIT, "rerun-changes-field",
+                             f"{hist}run() on a finished field changed |var| of {elements[:-1]} {int(np.argmax(dm)) if dm.size else None} from "
+                             f"{float(mod[int(np.argmax(dm))]) if dm.size else None!r} to {float(abs(v2[int(np.argmax(dm))])) if dm.size else None!r}"):
+                return
+            if fixed and (cond is None or cond <= COND_MAX):
+                d = np.abs(v2 - var)
+                k = int(np.argmax(d))
+                if not ctx.check(float(d[k]) <= TOL_SOLVE, "rerun-changes-field",
+                                 f"{hist}run() on a finished field changed {elements[:-1]} {k} from {var[k]} to {v2[k]}"):
+                    return
+            if not np.all(v2 == var):
+                first_sing = None          # (eigen path recomputed from another random start: another valid field)
+                ctx.label("rerun-recomputed")
+            var = v2
+            mod = np.abs(var)
+        elif op == "export":
             if not small:
                 continue
-            ok, poly = ctx.call("export_as_mesh", quiet(ff.export_as_mesh))
+            vec = elements == "vertices" and rsp == 3 and io % 2 == 0
+            if elements == "faces" or rsp == 0:
+                f_ = ff.export_as_mesh
+            elif vec:
+                f_ = lambda: ff.export_as_mesh(repr_vector=True)
+            elif rsp == 1:
+                f_ = lambda: ff.export_as_mesh(repr_vector=False)
+            elif rsp == 2:
+                f_ = lambda: ff.export_as_mesh(False)
+            else:
+                f_ = lambda: ff.export_as_mesh(repr_vector=(0 if io % 4 == 1 else np.bool_(False)))
+            ok, poly = ctx.call("export_as_mesh", quiet(f_))
             if not ok: return
-            if not check_export(case, poly, snap, var, V, medges, order, n_el, elements, ctx, hist):
+            if vec:
+                ctx.label("export:repr_vector")
+                if not check_export_vector(case, poly, snap, var, V, medges, n_el, ctx, hist):
+                    return
+            elif not check_export(case, poly, snap, var, V, medges, order, n_el, elements, ctx, hist):
                 return
         elif elements == "faces":
-            idxs = read_singularities(case, ff, mesh, ref, order, ctx, hist)
+            idxs = read_singularities(case, ff, mesh, ref, order, ctx, hist, spelled=(rsp, io))
             if idxs is None:
                 return
             if first_sing is None:
@@ -956,6 +1319,11 @@ def check_field(case, mesh, ref, ctx, where="", rng_seed=None):
                 if not ctx.check(abs(idxs[j] - first_sing[j]) <= 1e-6, "singularities-change-with-history",
                                  f"{hist}index of vertex {j} is {idxs[j]!r}, the first flag_singularities() gave {first_sing[j]!r}"):
                     return
+        elif case.get("rsp") is not None:
+            # vertex field: singularity values are not asserted (DESIGN); the call is a step of the history and must produce the
+            # documented attribute (+-1 / 0 per face) under the name asked for
+            if not flag_vertex_field(ff, mesh, nF, ctx, hist, (rsp, io)):
+                return
     if len(ops) > 1 or ops != ["flag"]:
         var2 = np.array(ff.var, dtype=complex)
         if not ctx.check(var2.shape == var.shape and bool(np.all(var2 == var)), "readout-modified-field",
@@ -1011,7 +1379,7 @@ def fn_sequence(case, ctx):
     sing_sets = []
     earlier = []
     for k, cfg in enumerate(steps):
-        c = dict(cfg, V=V, F=F, scale=float(case.get("scale", 1.0)))
+        c = dict(cfg, V=V, F=F, scale=float(case.get("scale", 1.0)), twin=False)      # (the fresh mesh below is the twin)
         where = f"step {k} of {[(x['elements'][0], x['order'], int(x['features'])) for x in steps]} on one mesh object: "
         r = check_field(c, mesh, ref, ctx, where, rng_seed=1000 + k)
         if r is None:
@@ -1024,7 +1392,7 @@ def fn_sequence(case, ctx):
             if not ok: return
         earlier.append((k, c, r))
         fresh_mesh, _ = build_mesh(case)
-        rf = check_field(c, fresh_mesh, ref, ctx, f"(fresh mesh, options of step {k}) ", rng_seed=1000 + k)
+        rf = check_field(canonical(c), fresh_mesh, ref, ctx, f"(fresh mesh, options of step {k}) ", rng_seed=1000 + k)
         if rf is None:
             return
         if rf == "discarded" or (r["cond"] is not None and r["cond"] > COND_MAX):
@@ -1095,7 +1463,7 @@ def custom_case(draw):
             "order": draw(st.sampled_from([4, 4, 2, 1, 3, 6, 5])), "features": features,
             "n_smooth": draw(st.sampled_from([0, 0, 1, 2])), "alpha": draw(st.sampled_from(ALPHAS)), "cotan": draw(st.booleans()),
             "smooth_normals": draw(st.booleans()), "cad": False,
-            "ops": draw(OPS) if elements == "faces" else ["flag"]}
+            "ops": draw(OPS) if elements == "faces" else ["flag"], **draw(spelling())}
 
 
 def fn_custom(case, ctx):
@@ -1125,7 +1493,8 @@ def large_case(draw):
     return {"nu": nu, "nv": nv, "bits": draw(st.lists(st.integers(0, 1), min_size=1, max_size=12)), "jitter_seed": draw(st.integers(0, 1000)),
             "amp": draw(st.sampled_from([0.05, 0.0, 0.1])), "roof": draw(st.integers(0, 3)) == 3,
             "elements": elements, "order": draw(ORDERS), "features": draw(st.booleans()), "n_smooth": 0, "alpha": 1.0,
-            "cotan": draw(st.booleans()), "smooth_normals": draw(st.booleans()), "cad": False}
+            "cotan": draw(st.booleans()), "smooth_normals": draw(st.booleans()), "cad": False,
+            "spell": draw(st.sampled_from(SPELLS)), "flagform": draw(st.sampled_from([None, "npbool", "int"]))}
 
 
 def fn_large(case, ctx):
@@ -1155,7 +1524,7 @@ def fn_large(case, ctx):
     medges = lib_edges(mesh)
     fe, fixed, free = partition(c, mesh, ff, ref, medges)
     ctx.label("elements=" + elements, "order=%d" % order, "cotan=%s" % bool(case["cotan"]), "features=%s" % bool(case["features"]),
-              "free>3500" if len(free) > 3500 else "free>2500" if len(free) > 2500 else "free<=2500")
+              "free>3500" if len(free) > 3500 else "free>2500" if len(free) > 2500 else "free<=2500", "spell=" + str(case.get("spell") or "kw"))
     ctx.nontrivial(len(free) > 2500)
     if elements == "vertices":
         Ls = M.operators.laplacian(mesh, cotan=bool(case["cotan"]), connection=ff.conn, order=order)
@@ -1417,6 +1786,8 @@ def fn_laplacian(case, ctx):
                       f"built on a fresh mesh (order {order}, cotan {cotan})")
         ok, Ls = ctx.call("laplacian-scalar:" + el, lap, mesh, cotan=cotan)
         if not ok: continue
+        if case.get("lsp") is not None and not spelled_operator_calls(case, el, lap, mesh, conn, Lc, Ls, ctx):
+            continue
         Lc = dense(Lc).astype(complex); Ls = dense(Ls).astype(complex)
         if not ctx.check(Lc.shape == (n, n) and Ls.shape == (n, n), "laplacian-shape:" + el, f"shapes {Lc.shape} / {Ls.shape}, expected {(n, n)}"):
             continue
@@ -1485,6 +1856,133 @@ def fn_laplacian(case, ctx):
                         break
 
 
+def spelled_operator_calls(case, el, lap, mesh, conn, Lc, Ls, ctx):
+    """Round 6: the operator / connection calls as a caller may spell them must give the same objects: arguments by position
+    (mesh, cotan, connection, order), flags as numpy.bool_ / 0-1, the order as a numpy integer, the order left out when it is the
+    documented default 4, connection=None given explicitly (then the order 'does nothing'), and connections built with their
+    optional arguments given explicitly as None / with the border-only detector the documentation says is the default."""
+    from mouette.processing import connection as C
+    from mouette.processing.features import FeatureEdgeDetector
+    order, cotan = int(case["order"]), bool(case["cotan"])
+    lsp = int(case["lsp"])
+    ctx.label("operator-spelling=%d" % lsp)
+
+    def same(Lx, Lref, what):
+        Lx_, Lr_ = dense(Lx).astype(complex), dense(Lref).astype(complex)
+        sc = max(1.0, float(np.max(np.abs(Lr_)))) if Lr_.size else 1.0
+        return ctx.check(Lx_.shape == Lr_.shape and (Lr_.size == 0 or float(np.max(np.abs(Lx_ - Lr_))) <= 1e-12 * sc), "operator-spelling:" + el,
+                         f"{what} differs from the call with keywords (order {order}, cotan {cotan}): shapes {Lx_.shape} / {Lr_.shape}, max difference "
+                         f"{float(np.max(np.abs(Lx_ - Lr_))) if Lx_.shape == Lr_.shape and Lr_.size else None}")
+
+    if lsp == 1:
+        ok, L1 = ctx.call("laplacian:" + el, lap, mesh, cotan, conn, order)
+        if not ok or not same(L1, Lc, "laplacian(mesh, cotan, connection, order) by position"): return False
+        ok, L1 = ctx.call("laplacian-scalar:" + el, lap, mesh, cotan)
+        if not ok or not same(L1, Ls, "scalar laplacian(mesh, cotan) by position"): return False
+    elif lsp == 2:
+        ok, L1 = ctx.call("laplacian:" + el, lap, mesh, cotan=np.bool_(cotan), connection=conn, order=np.int64(order))
+        if not ok or not same(L1, Lc, "laplacian with cotan as numpy.bool_ and order as numpy.int64"): return False
+        ok, L1 = ctx.call("laplacian:" + el, lap, mesh, int(cotan), conn, order)
+        if not ok or not same(L1, Lc, "laplacian with cotan as 0/1"): return False
+    elif lsp == 3:
+        # connection=None: scalar operator whatever the order
+        ok, L1 = ctx.call("laplacian-scalar:" + el, lap, mesh, cotan=cotan, connection=None, order=order)
+        if not ok or not same(L1, Ls, "laplacian(connection=None, order=%d)" % order): return False
+        ok, L1 = ctx.call("laplacian-scalar:" + el, lap, mesh, cotan, None)
+        if not ok or not same(L1, Ls, "laplacian(mesh, cotan, None)"): return False
+        if order == 4:
+            ok, L1 = ctx.call("laplacian:" + el, lap, mesh, cotan=cotan, connection=conn)
+            if not ok or not same(L1, Lc, "laplacian with the order left at its documented default 4"): return False
+        if cotan:
+            ok, L1 = ctx.call("laplacian:" + el, lap, mesh, connection=conn, order=order)
+            if not ok or not same(L1, Lc, "laplacian with cotan left at its documented default True"): return False
+    elif lsp == 4:
+        # connections: optional arguments given explicitly / the documented default detector given by the caller
+        K = C.SurfaceConnectionVertices if el == "vertices" else C.SurfaceConnectionFaces
+        variants = [("(mesh, None)", lambda: K(mesh, None)), ("(mesh, feat=None)", lambda: K(mesh, feat=None)),
+                    ("(mesh, border-only detector)", lambda: K(mesh, FeatureEdgeDetector(only_border=True, verbose=False)(mesh))),
+                    ("(mesh, feat=border-only detector that also built its feature graph)",
+                     lambda: K(mesh, feat=FeatureEdgeDetector(only_border=True, flag_corners=True, compute_feature_graph=True, verbose=False)(mesh)))]
+        if el == "vertices":
+            variants.append(("(mesh, None, vnormals=None, angles=None)", lambda: K(mesh, None, vnormals=None, angles=None)))
+        n = len(case["V"]) if el == "vertices" else len(case["F"])
+        X0 = np.array([vec3(conn.base(i)[0]) for i in range(n)]).reshape(-1, 3)
+        T0 = {k: float(v) for k, v in conn._transport.items()}
+        for name, mk in variants:
+            ok, c2 = ctx.call("connection:" + el, mk)
+            if not ok: return False
+            X2 = np.array([vec3(c2.base(i)[0]) for i in range(n)]).reshape(-1, 3)
+            T2 = {k: float(v) for k, v in c2._transport.items()}
+            dT = max([abs(T2[k] - T0[k]) for k in T0], default=0.0) if set(T2) == set(T0) else float("inf")
+            if not ctx.check(X2.shape == X0.shape and (X0.size == 0 or float(np.max(np.abs(X2 - X0))) <= 1e-12) and dT <= 1e-12, "connection-spelling:" + el,
+                             f"{K.__name__}{name} differs from {K.__name__}(mesh): max transport difference {dT}"):
+                return False
+    return True
+
+
+# ----------------------------------------------------------------------------------------------- sub-check: operators beyond 2**16
+
+@st.composite
+def big_case(draw):
+    """one-quad-wide planar strip: more than 2**16 vertices AND more than 2**16 faces in one mesh of ~65.6k triangles"""
+    return {"nu": draw(st.integers(32780, 32900)), "bits": draw(st.lists(st.integers(0, 1), min_size=1, max_size=9)), "which": draw(st.sampled_from(["both", "both", "faces"]))}
+
+
+def fn_big(case, ctx):
+    """Size regime beyond 2**16 elements (silent caps, narrow index types) for the scalar operators with uniform weights, which
+    cost a few seconds there: right shape, symmetric, constants in the kernel, off-diagonal pattern = the mesh's edges (vertices) /
+    the pairs of faces across an interior edge (faces), every such entry negative."""
+    import scipy.sparse as sp
+    import mouette as M
+    nu = int(case["nu"])
+    V, F = tri_grid(nu, 1, case["bits"])
+    nV, nF = len(V), len(F)
+    ctx.label("vertices>2**16" if nV > 2 ** 16 else "vertices<=2**16", "faces>2**16" if nF > 2 ** 16 else "faces<=2**16")
+    ctx.nontrivial(nV > 2 ** 16 and nF > 2 ** 16)
+    mesh = surface_from(V, F)
+    Fa = np.array(F, dtype=np.int64)
+    und = np.sort(np.concatenate([Fa[:, [0, 1]], Fa[:, [1, 2]], Fa[:, [2, 0]]]), axis=1)
+    owner = np.concatenate([np.arange(nF)] * 3)
+    keys = und[:, 0] * nV + und[:, 1]
+    o = np.argsort(keys, kind="stable")
+    ks, ow = keys[o], owner[o]
+    twice = np.where(ks[1:] == ks[:-1])[0]                   # interior edges: (ow[k], ow[k+1]) are the two faces
+    uk = np.unique(keys)
+
+    def pattern(L, n, pairs, what):
+        if not ctx.check(getattr(L, "shape", None) == (n, n), "laplacian-shape:" + what, f"big mesh: shape {getattr(L, 'shape', None)}, expected {(n, n)}"):
+            return
+        L = sp.csr_matrix(L).astype(float)
+        L.sum_duplicates()
+        sc = max(1.0, float(abs(L).max()))
+        D = (L - L.T)
+        if not ctx.check(D.nnz == 0 or float(abs(D).max()) <= 1e-12 * sc, "scalar-laplacian-not-symmetric:" + what, f"big mesh ({n} {what}): max |L - L^T| = {float(abs(D).max()) if D.nnz else 0}"):
+            return
+        rs = np.abs(np.asarray(L.sum(axis=1)).ravel())
+        i = int(np.argmax(rs))
+        if not ctx.check(float(rs[i]) <= 1e-9 * sc, "scalar-laplacian-row-sum:" + what, f"big mesh ({n} {what}): row {i} sums to {float(rs[i])!r}, constants are not in the kernel"):
+            return
+        C = L.tocoo()
+        off = (C.row != C.col) & (C.data != 0)
+        got = np.unique(np.minimum(C.row[off], C.col[off]).astype(np.int64) * n + np.maximum(C.row[off], C.col[off]))
+        exp_ = np.unique(pairs[:, 0].astype(np.int64) * n + pairs[:, 1])
+        miss, extra = np.setdiff1d(exp_, got), np.setdiff1d(got, exp_)
+        if not ctx.check(miss.size == 0 and extra.size == 0, "scalar-laplacian-pattern:" + what,
+                         f"big mesh ({n} {what}): {miss.size} adjacent pairs without an entry (first {[divmod(int(k), n) for k in miss[:3]]}), "
+                         f"{extra.size} entries between non-adjacent {what} (first {[divmod(int(k), n) for k in extra[:3]]})"):
+            return
+        ctx.check(bool(np.all(C.data[off] < 0)), "scalar-laplacian-sign:" + what, f"big mesh ({n} {what}): a positive off-diagonal weight with uniform weights")
+
+    if case.get("which") != "faces":
+        ok, L = ctx.call("laplacian-scalar:vertices", M.operators.laplacian, mesh, cotan=False)
+        if ok:
+            pattern(L, nV, np.stack([uk // nV, uk % nV], axis=1), "vertices")
+    ok, L = ctx.call("laplacian-scalar:faces", M.operators.laplacian_triangles, mesh, cotan=False)
+    if ok:
+        pr = np.stack([np.minimum(ow[twice], ow[twice + 1]), np.maximum(ow[twice], ow[twice + 1])], axis=1)
+        pattern(L, nF, pr, "faces")
+
+
 def self_test():
     for nu, nv, folds in ((1, 1, ()), (3, 2, (1,)), (5, 4, (1, 3)), (4, 3, (2,))):
         for fix in (False, True):
@@ -1509,6 +2007,7 @@ SUBCHECKS = [
     SubCheck("renumber_vertices", renumber_case("vertices"), fn_renumber, quick=320, thorough=1500),
     SubCheck("renumber_faces", renumber_case("faces"), fn_renumber, quick=320, thorough=1500),
     SubCheck("laplacian", laplacian_case(), fn_laplacian, quick=400, thorough=1500),
+    SubCheck("operators_big", big_case(), fn_big, quick=1, thorough=2, watchdog=(240, 900)),
 ]
 
 
